@@ -333,6 +333,11 @@ func (u *Unit) closedHeapFact(h Term, bound Term) (Term, bool) {
 		if inner == SSlice {
 			return Forall([]Term{r, i}, Imp(holder, before(App("s_base", SRef, cell))), []Term{cell}), true
 		}
+		if inner == SVal && ksort != SInt {
+			// an interface value stored in a map may hold a pointer: it points to something that exists
+			_, un := u.boxFn(SRef)
+			return Forall([]Term{r, i}, Imp(holder, before(App(un, SRef, cell))), []Term{cell}), true
+		}
 	}
 	return Term{}, false
 }
